@@ -337,7 +337,7 @@ func progDepth(p Prog) int {
 }
 
 func check(run *common.Run) {
-	run.Res.Rule = "cases = (a) structural queries: for every generated declaration set (3–6 struct types embedding earlier ones by value / by pointer / as a plain field, up to depth 3, value- and pointer-receiver methods drawn from four names with two signatures, func() fields named like methods — also two of them at one depth —, 3–4 interface types with embedding) every (struct type, selector name), every method set of T and *T, every (T or *T, interface) pair; (b) programs: the same sets crossed with 33 scenario forms (call on variable / pointer / &v / function result, method value with and without a later mutation, method expression, interface assignment by value and by pointer with and without a later mutation, assertion from a typed / empty interface to named, pointer, interface and anonymous-interface types in both result forms, type switches with and without binding, with overlapping interface clauses and a default clause at every position, a value-receiver method reached through a pointer variable / a promotion over an embedded pointer / an interface holding a pointer / a method value bound from a pointer with the operand dumped afterwards, nil interface values, error / fmt.Stringer / io.Writer / sort.Interface handed to host functions); every method increments and prints its receiver state, every program dumps its variable at the end; non-trivial = the type under test embeds at least one struct; distinct = distinct protocol line"
+	run.Res.Rule = "cases = (a) structural queries: for every generated declaration set (3–6 struct types embedding earlier ones by value / by pointer / as a plain field, up to depth 3, value- and pointer-receiver methods drawn from four names with two signatures, func() fields named like methods — also two of them at one depth —, 3–4 interface types with embedding) every (struct type, selector name), every method set of T and *T, every (T or *T, interface) pair; (b) programs: the same sets crossed with 39 scenario forms (call on variable / pointer / &v / function result, method value with and without a later mutation, method value taken from an interface value holding v or &v with and without a later mutation, method expression, interface assignment by value and by pointer with and without a later mutation, assertion from a typed / empty interface to named, pointer, interface and anonymous-interface types in both result forms, type switches with and without binding, with overlapping interface clauses and a default clause at every position, a value-receiver method reached through a pointer variable / a promotion over an embedded pointer / an interface holding a pointer / a method value bound from a pointer with the operand dumped afterwards, nil interface values, error / fmt.Stringer / io.Writer / sort.Interface handed to host functions, also with the converted variable mutated or reassigned between the conversion and the use, interface{} asserted to fmt.Stringer after a mutation); every method increments and prints its receiver state, every program dumps its variable at the end; non-trivial = the type under test embeds at least one struct; distinct = distinct protocol line"
 	drv, err := common.StartDriver("C05")
 	if err != nil {
 		run.Errorf("driver: %v", err)
